@@ -2,6 +2,7 @@ package sx
 
 import (
 	"fmt"
+	"go/token"
 	"go/types"
 	"os"
 	"path/filepath"
@@ -172,6 +173,102 @@ func (p *Program) Reaches(modulePath, pkgPath, root string, forbidden, through [
 		}
 	}
 	return out, true
+}
+
+// FlagPassthrough checks, in every function of pkgPath that calls anchor, that each value
+// stored into a struct field named optionField is exactly what the flag getter returned for
+// flag (read through local struct fields only: no call, no arithmetic, no re-slicing in
+// between). It returns function -> "" (holds) or a description of the offending definition.
+func (p *Program) FlagPassthrough(pkgPath, anchor, optionField, flag string) map[string]string {
+	out := map[string]string{}
+	for fn := range ssautil.AllFunctions(p.Prog) {
+		if fn.Pkg == nil || fn.Pkg.Pkg.Path() != pkgPath {
+			continue
+		}
+		calls := false
+		for _, b := range fn.Blocks {
+			for _, ins := range b.Instrs {
+				if c, ok := ins.(ssa.CallInstruction); ok {
+					if sc := c.Common().StaticCallee(); sc != nil && sc.Name() == anchor {
+						calls = true
+					}
+				}
+			}
+		}
+		if !calls {
+			continue
+		}
+		fieldOf := func(fa *ssa.FieldAddr) string {
+			// only fields of the engine's option struct count (other structs may have a field
+			// of the same name)
+			nt, ok := deref(fa.X.Type()).(*types.Named)
+			if !ok || nt.Obj().Name() != "SearchOptions" {
+				return ""
+			}
+			st, ok := nt.Underlying().(*types.Struct)
+			if !ok {
+				return ""
+			}
+			return st.Field(fa.Field).Name()
+		}
+		var trace func(v ssa.Value, depth int) string
+		trace = func(v ssa.Value, depth int) string {
+			if depth > 8 {
+				return "definition chain too long"
+			}
+			switch x := v.(type) {
+			case *ssa.Extract:
+				if call, ok := x.Tuple.(*ssa.Call); ok {
+					if sc := call.Common().StaticCallee(); sc != nil && strings.HasPrefix(sc.Name(), "Get") && len(call.Common().Args) >= 2 {
+						if c, ok := call.Common().Args[1].(*ssa.Const); ok && c.Value != nil && strings.Trim(c.Value.ExactString(), "\"") == flag {
+							return ""
+						}
+					}
+					return "comes from a call to " + call.Common().Value.String()
+				}
+			case *ssa.UnOp:
+				if fa, ok := x.X.(*ssa.FieldAddr); ok && x.Op == token.MUL {
+					found := false
+					for _, b := range fn.Blocks {
+						for _, ins := range b.Instrs {
+							if st, ok := ins.(*ssa.Store); ok {
+								if fa2, ok := st.Addr.(*ssa.FieldAddr); ok && fa2.X == fa.X && fa2.Field == fa.Field {
+									found = true
+									if why := trace(st.Val, depth+1); why != "" {
+										return why
+									}
+								}
+							}
+						}
+					}
+					if found {
+						return ""
+					}
+					return "read from a field that is never assigned in this function"
+				}
+			case *ssa.Call:
+				return "comes from a call to " + x.Common().Value.String()
+			}
+			return "is computed (" + v.String() + ")"
+		}
+		res, seen := "", false
+		for _, b := range fn.Blocks {
+			for _, ins := range b.Instrs {
+				if st, ok := ins.(*ssa.Store); ok {
+					if fa, ok := st.Addr.(*ssa.FieldAddr); ok && fieldOf(fa) == optionField {
+						seen = true
+						if why := trace(st.Val, 0); why != "" && res == "" {
+							res = optionField + " " + why
+						}
+					}
+				}
+			}
+		}
+		if seen {
+			out[fn.String()] = res
+		}
+	}
+	return out
 }
 
 // loaderEnv: the `go list` driver must be go1.26.8 (x/tools v0.50.0 and the
